@@ -287,12 +287,19 @@ class UnionMatcher(AdditiveBiMatcher):
         aq = a.block_quality()
         bq = b.block_quality()
         while a.is_active() and b.is_active() and aq + bq < minquality:
+            # A sub-matcher may skip many blocks, i.e. a range of documents in
+            # which the other one goes through several blocks of its own. The
+            # only bound on the other's contribution over such a range is its
+            # overall maximum, not the quality of its current block.
             if aq < bq:
-                skipped += a.skip_to_quality(minquality - bq)
-                aq = a.block_quality()
+                sk = a.skip_to_quality(minquality - b.max_quality())
+                aq = a.block_quality() if a.is_active() else 0
             else:
-                skipped += b.skip_to_quality(minquality - aq)
-                bq = b.block_quality()
+                sk = b.skip_to_quality(minquality - a.max_quality())
+                bq = b.block_quality() if b.is_active() else 0
+            if not sk:
+                break
+            skipped += sk
 
         return skipped
 
@@ -520,8 +527,10 @@ class IntersectionMatcher(AdditiveBiMatcher):
             if aq < bq:
                 # If the block quality of A is less than B, skip A ahead until
                 # it can contribute at least the balance of the required min
-                # quality when added to B
-                sk = a.skip_to_quality(minquality - bq)
+                # quality when added to the most B can contribute anywhere
+                # (A may skip past the end of B's current block, so B's
+                # current block quality is not a bound there)
+                sk = a.skip_to_quality(minquality - b.max_quality())
                 skipped += sk
                 if not sk and a.is_active():
                     # The matcher couldn't skip ahead for some reason, so just
@@ -529,7 +538,7 @@ class IntersectionMatcher(AdditiveBiMatcher):
                     a.next()
             else:
                 # And vice-versa
-                sk = b.skip_to_quality(minquality - aq)
+                sk = b.skip_to_quality(minquality - a.max_quality())
                 skipped += sk
                 if not sk and b.is_active():
                     b.next()
@@ -770,17 +779,13 @@ class AndMaybeMatcher(AdditiveBiMatcher):
         if not b.is_active():
             return a.skip_to_quality(minquality)
 
-        skipped = 0
-        aq = a.block_quality()
-        bq = b.block_quality()
-        while a.is_active() and b.is_active() and aq + bq < minquality:
-            if aq < bq:
-                skipped += a.skip_to_quality(minquality - bq)
-                aq = a.block_quality()
-            else:
-                skipped += b.skip_to_quality(minquality - aq)
-                bq = b.block_quality()
-
+        # Only the required matcher decides which documents are visited. It
+        # may skip a range of documents in which the optional matcher goes
+        # through several blocks, so the bound on the optional contribution
+        # is the optional matcher's overall maximum.
+        skipped = a.skip_to_quality(minquality - b.max_quality())
+        if a.is_active() and b.is_active() and b.id() < a.id():
+            b.skip_to(a.id())
         return skipped
 
     def weight(self):
